@@ -186,8 +186,8 @@ def sweep(rep, wd, engine, ctx, label, quick, rng):
                 return '%s.%s(%s)' % (pos[0], name, ', '.join(allargs[1:])), binds
             return '%s(%s)' % (name, ', '.join(allargs)), binds
 
-        def evaluate(text, binds):
-            c = ctx.create_child_context()
+        def evaluate(text, binds, base=None):
+            c = (base or ctx).create_child_context()
             for k, v in binds.items():
                 c[k] = v
             signal.signal(signal.SIGALRM, c08._alarm)
@@ -204,6 +204,10 @@ def sweep(rep, wd, engine, ctx, label, quick, rng):
         ref = {}
         n = 0
         nvalid = 0
+        from collections import Counter
+        cnt_names = Counter(nm for nm, _fd in fds)
+        multi = set(nm for nm, k in cnt_names.items() if k >= 2)
+        fresh = [yaql.create_context(convention=ctx.convention) for _ in range(4)]
         states = list(tlaval.parse_dump(dump + '.dump'))
         for st in states:
             si = st['sig'] - 1
@@ -228,6 +232,13 @@ def sweep(rep, wd, engine, ctx, label, quick, rng):
             if t0 is None or r0 == ('exc', 'timeout'):
                 continue
             got = evaluate(text, binds)
+            if name in multi and got[0] == r0[0]:
+                # several overloads share this name: repeat in fresh contexts (each enumerates its overload sets in its own order)
+                for fc in fresh:
+                    g2 = evaluate(text, binds, fc)
+                    if not (g2[0] == r0[0] and (g2[1] == r0[1] if g2[0] == 'exc' else c09.deep_eq(g2[1], r0[1]))):
+                        got = g2
+                        break
             n += 1
             rep.evaluations += 1
             if r0[0] == 'ok':
